@@ -42,8 +42,8 @@ def generate(chk, tier):
     jobs = [
         ("refine-pad", dict(module="MC_EncRefine", constants_text=E.refine_cfg(1, [0, 1], 12, "pad", False), workers=1, want_cases=False)),
         ("refine-fill", dict(module="MC_EncRefine", constants_text=E.refine_cfg(1, [0, 1], 14 if thorough else 12, "fill", False), workers=2, want_cases=False)),
-        ("refine3-pad", dict(module="MC_EncRefine", constants_text=E.refine_cfg(2, [0, 1, 3], 9 if thorough else 8, "pad", False), workers=2, want_cases=False)),
-        ("refine3-fill", dict(module="MC_EncRefine", constants_text=E.refine_cfg(2, [0, 1, 3], 10 if thorough else 8, "fill", False), workers=2, want_cases=False)),
+        ("refine3-pad", dict(module="MC_EncRefine", constants_text=E.refine_cfg(2, [0, 1, 3], 9, "pad", False), workers=2, want_cases=False)),
+        ("refine3-fill", dict(module="MC_EncRefine", constants_text=E.refine_cfg(2, [0, 1, 3], 10 if thorough else 9, "fill", False), workers=2, want_cases=False)),
         ("dec-consume", dict(module="MC_EncHist", constants_text=E.hist_cfg("pos", 2, 5, "consume", False, range(1, 16)), workers=3, want_cases=False)),
         ("dec-skip", dict(module="MC_EncHist", constants_text=E.hist_cfg("pos", 1, 5, "skip", False, range(1, 16)), workers=2, want_cases=False)),
         ("seq-bin", dict(module="MC_EncRefine", constants_text=E.refine_cfg(1, [0, 1], maxlen, "fill", True), workers=4, timeout=2400)),
